@@ -92,7 +92,7 @@ Section Refill.
   Qed.
 
   Lemma xcode_more_spec : forall (fuel : nat) (needMore : bool) (r : reader) (m : nat),
-    good c r ->
+    good c r -> (0 < m)%nat ->
     (rbsz c - length (rcur r) + (if needMore then 1 else 2) <= fuel)%nat ->
     (needMore = true -> step (rcur r) = DNeed \/ exists u n, step (rcur r) = DOut u n /\ (m < length u)%nat) ->
     forall cs st, Dec step (pending r) cs st ->
@@ -102,7 +102,7 @@ Section Refill.
     | Ok (r', new) => xm_post r m cs st r' new
     end.
   Proof.
-    induction fuel as [|f IH]; intros needMore r m G Hf Hinv cs st D.
+    induction fuel as [|f IH]; intros needMore r m G Hm0 Hf Hinv cs st D.
     { destruct needMore; lia. }
     cbn [xcode_more].
     (* the transcoding step, shared by both branches; r1 is the reader after the optional raw refresh *)
@@ -129,8 +129,8 @@ Section Refill.
         destruct (Nat.ltb_spec (length (rcur r1)) eaten) as [?|_]; [lia|]. cbn [orb].
         destruct (Nat.eqb_spec eaten 0) as [E0|N0].
         + subst eaten.
-          assert (Hpr := xc_progress _ _ _ HC _ _ _ EX).
-          specialize (IH true r1 m G1 Hf1 (fun _ => Hpr) cs st ltac:(rewrite P1; exact D)).
+          assert (Hpr := xc_progress _ _ _ HC _ _ _ Hm0 EX).
+          specialize (IH true r1 m G1 Hm0 Hf1 (fun _ => Hpr) cs st ltac:(rewrite P1; exact D)).
           destruct (xcode_more c f true r1 m) as [[r' new]|[| |e]]; auto.
           unfold xm_post in *. destruct IH as [A1 [A2 [A3 [A4 [A5 [A6 [A7 [rest [R1 [R2 [R3 R4]]]]]]]]]]].
           destruct A1 as [? [? ?]].
